@@ -171,6 +171,9 @@ func (f *field) shape() string {
 	case kPtrStruct:
 		return "ptr-struct"
 	case kSlicePrim:
+		if f.typ.Name() != "" {
+			return "named-" + f.typ.Name() // a named list type (with methods)
+		}
 		return "slice-" + family(f.prim)
 	case kSliceStruct:
 		if f.elemPtr {
@@ -178,6 +181,9 @@ func (f *field) shape() string {
 		}
 		return "slice-struct"
 	case kArrayPrim:
+		if f.typ.Name() != "" {
+			return "named-" + f.typ.Name() // a named array type (with methods)
+		}
 		return "array-" + family(f.prim)
 	case kArrayComp:
 		return "array-of-" + f.elem.shape()
